@@ -47,6 +47,10 @@ def _items(seed, scale):
         out.append(('atom', s))
     for i in range(6 * scale):
         out.append(('split', gen.junk_selfies(rnd, 5) if i % 2 else gen.rand_selfies(rnd, 6)))
+    # well-formed strings with characters a regex / splitlines / C-string based counter would stumble over (the len_selfies
+    # clauses are guarded by well-formedness, so random junk alone would leave them unevaluated)
+    for s in ('', '[C][\n][F]', '[C].[\r\n].[F].', '[][ ][\x00]', '[a\nb][\u2028][\x85].[é]', '[C][=C][F].[C]', '[\\][(][*].[{}]'):
+        out.append(('split', s))
     rnd.shuffle(out)
     return out
 
